@@ -170,6 +170,26 @@ def _handler_const(node):
     return None
 
 
+# the generic plumbing: functions that take the handler as their parameter `handler` and pass it on
+FORWARDERS = ("syncreq", "asyncreq", "sync_request", "async_request", "_async_request")
+
+
+def _calls_with_function(tree):
+    """(call node, name of the innermost enclosing function or None)"""
+    out = []
+
+    def walk(node, fn):
+        for child in ast.iter_child_nodes(node):
+            if isinstance(child, (ast.FunctionDef, ast.AsyncFunctionDef, ast.Lambda)):
+                walk(child, getattr(child, "name", "<lambda>"))
+            else:
+                if isinstance(child, ast.Call):
+                    out.append((child, fn))
+                walk(child, fn)
+    walk(tree, None)
+    return out
+
+
 def call_sites(pkg_dir):
     out = set()
     for path in sorted(glob.glob(os.path.join(pkg_dir, "**", "*.py"), recursive=True)):
@@ -178,9 +198,7 @@ def call_sites(pkg_dir):
                 tree = ast.parse(f.read())
             except SyntaxError as ex:
                 raise Inexpressible("%s does not parse: %s" % (path, ex))
-        for n in ast.walk(tree):
-            if not isinstance(n, ast.Call):
-                continue
+        for n, enclosing in _calls_with_function(tree):
             fn = n.func.id if isinstance(n.func, ast.Name) else n.func.attr if isinstance(n.func, ast.Attribute) else None
             if fn in ("syncreq", "asyncreq") and len(n.args) >= 2:
                 h, rest, base = _handler_const(n.args[1]), n.args[2:], 1
@@ -189,7 +207,12 @@ def call_sites(pkg_dir):
             else:
                 continue
             if h is None:
-                continue
+                harg = n.args[1] if fn in ("syncreq", "asyncreq") else n.args[0]
+                if enclosing in FORWARDERS and isinstance(harg, ast.Name) and harg.id == "handler":
+                    continue                # the plumbing itself passing its `handler` parameter on
+                raise Inexpressible("%s:%d: %s() is called with a handler that is not a HANDLE_* constant (%s) outside the "
+                                    "known forwarders %s: the call sites behind it cannot be enumerated"
+                                    % (os.path.basename(path), n.lineno, fn, ast.dump(harg)[:60], list(FORWARDERS)))
             if any(isinstance(a, ast.Starred) for a in rest):
                 raise Inexpressible("%s: call of %s with %s spreads *args" % (os.path.basename(path), fn, h))
             if fn == "_async_request" and rest:
